@@ -395,6 +395,8 @@ class Engine:
 
     def isinstance_of(self, ctx: Ctx, v, cls) -> Any:
         """isinstance(v, cls) as python bool or z3 Bool."""
+        if isinstance(cls, V.Builtin) and cls.bound is None:
+            cls = V.ExtClass(cls.name)
         if isinstance(cls, V.ExtClass):
             return self.lib.isinstance_ext(ctx, v, cls.name)
         if isinstance(cls, V.ClassVal):
@@ -537,8 +539,8 @@ class Engine:
             return speclib_and(*[self.py_eq(ctx, x, y) for x, y in zip(a, b)])
         if isinstance(a, (bool, int, str, float)) and isinstance(b, (bool, int, str, float)):
             return a == b
-        if isinstance(a, V.Opaque) or isinstance(b, V.Opaque):
-            raise EngineLimit("== on opaque value")
+        if isinstance(a, (V.Opaque, V.Builtin)) or isinstance(b, (V.Opaque, V.Builtin)):
+            raise EngineLimit("== on an unmodelled value %r / %r" % (a, b))
         if type(a) is not type(b):
             return False
         raise EngineLimit("== of %r and %r" % (a, b))
@@ -742,6 +744,10 @@ class Engine:
                     args[p.arg] = V.ClassVal(cls)
                     continue
                 self_obj = self.materialise_self(ctx, cls, is_init)
+                if inst is not None:
+                    for k, v in inst.items():
+                        if k.startswith("self."):
+                            self_obj.fields[k[5:]] = v
                 args[p.arg] = self_obj
                 continue
             args[p.arg] = self.make_param(ctx, finfo, contract, p.arg, p.annotation, inst)
@@ -805,14 +811,15 @@ class Engine:
                 if self.exc_matches(exc, xname):
                     return
             ctx.oblige("%s/noraise#%s" % (short(ctx.func), exc.clsname), z3.BoolVal(False), kind="noraise",
-                       info={"exception": exc.clsname})
+                       info={"exception": exc.clsname, "origin": exc.fields.get("__origin__")})
             return
         cond = contract.raises[matched]
         if cond is None:
             return
         ns.__dict__["exc"] = exc
         c = self.run_spec(ctx, cond, ns)
-        ctx.oblige("%s/raises#%s" % (short(ctx.func), matched), lift_bool(c), kind="raises")
+        ctx.oblige("%s/raises#%s" % (short(ctx.func), matched), lift_bool(c), kind="raises",
+                   info={"origin": exc.fields.get("__origin__")})
 
     def exc_matches(self, exc: ExcVal, name: str) -> bool:
         if isinstance(exc.cls, ClassInfo):
@@ -987,6 +994,7 @@ class Engine:
             v = ExcVal(v)
         if not isinstance(v, ExcVal):
             raise EngineLimit("raise of non-exception %r" % (v,))
+        v.fields.setdefault("__origin__", "%s line %d" % (env.finfo.qualname if env.finfo else "?", st.lineno))
         raise PyRaise(v)
 
     def st_If(self, ctx, st, env):
@@ -1472,6 +1480,12 @@ class Engine:
             return self.lib.call_builtin(ctx, callee, args, kwargs)
         if isinstance(callee, V.ExtClass):
             return self.lib.call_ext_class(ctx, callee, args, kwargs)
+        if isinstance(callee, V.RecClass):
+            vals = dict(zip(callee.fields, args))
+            vals.update(kwargs)
+            if set(vals) != set(callee.fields):
+                raise PyRaise(ExcVal(V.ExtClass("TypeError")))
+            return RecV(callee.name, {f: vals[f] for f in callee.fields})
         if isinstance(callee, V.Partial):
             kw = dict(callee.kwargs)
             kw.update(kwargs)
@@ -1483,7 +1497,7 @@ class Engine:
         params = a.posonlyargs + a.args
         bound: Dict[str, Any] = {}
         if len(args) > len(params) and not a.vararg:
-            raise PyRaise(ExcVal(V.ExtClass("TypeError")))
+            raise self.lib.raise_ext("TypeError", "too many positional arguments for %s" % finfo.qualname)
         for p, v in zip(params, args):
             bound[p.arg] = v
         if a.vararg:
@@ -1499,7 +1513,7 @@ class Engine:
                 if i >= n_no_default:
                     bound[p.arg] = self.eval(ctx, defaults[i - n_no_default], env_for_defaults)
                 else:
-                    raise PyRaise(ExcVal(V.ExtClass("TypeError")))
+                    raise self.lib.raise_ext("TypeError", "missing argument %s of %s" % (p.arg, finfo.qualname))
         for p, d in zip(a.kwonlyargs, a.kw_defaults):
             if p.arg not in bound:
                 if d is None:
